@@ -449,6 +449,8 @@ pub struct MExec<'a> {
     pub forks: Vec<ForkRecord>,
     pub op_budget: u64,
     pub budget_hit: bool,
+    /// F8: the instruction store cannot deliver the operation at this index
+    pub fail_at: Option<usize>,
 }
 
 #[derive(Clone, Debug, PartialEq, Eq)]
@@ -470,6 +472,14 @@ impl MExec<'_> {
     pub fn run(&mut self, vm: &mut Vm) -> Result<u128, MErr> {
         let mut gas: u128 = 0;
         loop {
+            if self.fail_at == Some(vm.pc) && vm.pc < self.ops.len() {
+                // whoever gets here (parent or child) fails with the store's error, before
+                // anything is charged
+                return Err(MErr {
+                    pc: vm.pc,
+                    kind: "FromBytes".into(),
+                });
+            }
             let Some(op) = self.ops.get(vm.pc).copied() else {
                 break;
             };
@@ -626,6 +636,10 @@ pub fn m_exec(case: &VmCase, op_budget: u64) -> Result<MOutcome, PanicInfo> {
         forks: Vec::new(),
         op_budget,
         budget_hit: false,
+        fail_at: match &case.container {
+            Container::Lazy { fail_at } => *fail_at,
+            _ => None,
+        },
     };
     let r = crate::runner::catch(|| m.run(&mut vm));
     match r {
